@@ -15,6 +15,14 @@ import os
 from typing import Dict, List, Optional, Set, Tuple
 
 
+def dfs(node: ast.AST):
+    """Pre-order walk in field order: the order is a function of the tree's structure, not of line numbers, so it is
+    the same for a tree whose statements were re-arranged back into the reference shape."""
+    yield node
+    for ch in ast.iter_child_nodes(node):
+        yield from dfs(ch)
+
+
 def ordered_locals(fn: ast.AST) -> List[str]:
     """Function-local names (bound by assignment / for / with / comprehension / except-as), by first binding;
     parameters of the function and of nested functions, nested def/class names and global/nonlocal names excluded."""
@@ -28,7 +36,7 @@ def ordered_locals(fn: ast.AST) -> List[str]:
         params.add(a.kwarg.arg)
     banned: Set[str] = set()
     first: Dict[str, Tuple[int, int]] = {}
-    for n in ast.walk(fn):
+    for seq, n in enumerate(dfs(fn)):
         if isinstance(n, (ast.Global, ast.Nonlocal)):
             banned |= set(n.names)
         if isinstance(n, (ast.FunctionDef, ast.AsyncFunctionDef, ast.Lambda)) and n is not fn:
@@ -44,7 +52,7 @@ def ordered_locals(fn: ast.AST) -> List[str]:
         if isinstance(n, ast.ClassDef):
             banned.add(n.name)
         if isinstance(n, ast.Name) and isinstance(n.ctx, ast.Store):
-            pos = (n.lineno, n.col_offset)
+            pos = (seq, 0)
             if n.id not in first or pos < first[n.id]:
                 first[n.id] = pos
     names = [k for k in first if k not in params and k not in banned and not (k.startswith("__") and k.endswith("__"))]
@@ -64,9 +72,7 @@ _FLIP = {ast.Lt: ast.Gt, ast.Gt: ast.Lt, ast.LtE: ast.GtE, ast.GtE: ast.LtE, ast
 
 
 def single_compares(fn: ast.AST) -> List[ast.Compare]:
-    out = [n for n in ast.walk(fn) if isinstance(n, ast.Compare) and len(n.ops) == 1 and type(n.ops[0]) in _FLIP]
-    out.sort(key=lambda n: (n.lineno, n.col_offset, getattr(n, "end_col_offset", 0) or 0))
-    return out
+    return [n for n in dfs(fn) if isinstance(n, ast.Compare) and len(n.ops) == 1 and type(n.ops[0]) in _FLIP]
 
 
 def compare_text(n: ast.Compare, flipped: bool = False) -> str:
@@ -90,6 +96,52 @@ def unflip(qualname: str, fn: ast.AST) -> int:
             n.left, n.comparators, n.ops = n.comparators[0], [n.left], [_FLIP[type(n.ops[0])]()]
             k += 1
     return k
+
+
+def two_armed_ifs(fn: ast.AST) -> List[ast.If]:
+    """if statements with an else arm (elif chains included: an elif is an `if` in the else arm), outermost first."""
+    out = []
+    for n in dfs(fn):
+        if isinstance(n, ast.If) and n.orelse:
+            out.append(n)
+    return out
+
+
+def _negated_text(t: ast.AST) -> str:
+    if isinstance(t, ast.UnaryOp) and isinstance(t.op, ast.Not):
+        return ast.unparse(t.operand)
+    return ast.unparse(ast.UnaryOp(op=ast.Not(), operand=t))
+
+
+def uninvert(qualname: str, fn: ast.AST) -> int:
+    """Undo `if c: A else: B` written as `if not c: B else: A` relative to the reference tree (outermost first, so that
+    the structural order of the inner statements is restored before they are compared)."""
+    ref = reference_ifs().get(qualname)
+    if not ref or len(two_armed_ifs(fn)) != len(ref):
+        return 0
+    k = 0
+    for i, r in enumerate(ref):
+        cur = two_armed_ifs(fn)
+        if len(cur) != len(ref):
+            break
+        n = cur[i]
+        if ast.unparse(n.test) != r and _negated_text(n.test) == r:
+            t = n.test.operand if isinstance(n.test, ast.UnaryOp) and isinstance(n.test.op, ast.Not) else ast.UnaryOp(op=ast.Not(), operand=n.test)
+            n.test = ast.copy_location(t, n.test)
+            n.body, n.orelse = n.orelse, n.body
+            k += 1
+    return k
+
+
+_REFI: Optional[Dict[str, List[str]]] = None
+
+
+def reference_ifs() -> Dict[str, List[str]]:
+    global _REFI
+    if _REFI is None:
+        p = os.path.join(os.path.dirname(os.path.dirname(os.path.abspath(__file__))), "spec", "reference_ifs.json")
+        _REFI = json.load(open(p)) if os.path.exists(p) else {}
+    return _REFI
 
 
 _REFC: Optional[Dict[str, List[str]]] = None
